@@ -1,2 +1,40 @@
-Theorem C11_placeholder : True. Proof. exact I. Qed.
-Print Assumptions C11_placeholder.
+(* C11 — no access reaches beyond the configured read and write distances.
+   Statements about Exec.exec (the literal model the harness runs against gmars);
+   cdistN is the distance around the circular core. *)
+From GM Require Import Base Exec Emi94 Locality C01Phase C11Proof C11Top.
+Open Scope N_scope.
+
+(* every cell that differs after a step is within floor(W/2) of the program counter *)
+Theorem C11_write_locality :
+  forall M R W wi c pc,
+    2 <= M -> M <= 2 ^ 32 -> 1 <= R <= M -> 1 <= W <= M -> cwf M c -> pc < M ->
+    forall a, get (fst (fst (exec M R W wi c pc))) a <> get c a -> cdistN M pc a <= W / 2.
+Proof. exact model_write_local. Qed.
+Print Assumptions C11_write_locality.
+
+(* every queued successor other than pc+1 / pc+2 is within floor(R/2) *)
+Theorem C11_jump_locality :
+  forall M R W wi c pc,
+    2 <= M -> M <= 2 ^ 32 -> 1 <= R <= M -> 1 <= W <= M -> cwf M c -> pc < M ->
+    forall x, In x (snd (fst (exec M R W wi c pc))) ->
+    x = (pc + 1) mod M \/ x = (pc + 2) mod M \/ cdistN M pc x <= R / 2.
+Proof. exact model_jump_local. Qed.
+Print Assumptions C11_jump_locality.
+
+(* the instruction copied for an operand is fetched within floor(R/2) *)
+Theorem C11_fetch_locality :
+  forall M R W c pc md num,
+    2 <= M -> 1 <= R <= M -> 1 <= W <= M -> pc < M ->
+    let '(_, rp, _, ir) := eval_operand M R W c pc md num in
+    cdistN M pc (addr M pc rp) <= R / 2 /\ exists c1, ir = get c1 (addr M pc rp).
+Proof. exact fetch_local. Qed.
+Print Assumptions C11_fetch_locality.
+
+(* with both limits equal to the core size the step is the step with limits ignored *)
+Theorem C11_full_limits_noop :
+  forall M wi c pc, 2 <= M -> M <= 2 ^ 32 -> cwf M c -> pc < M ->
+    let '(c', pushes, _) := exec M M M wi c pc in
+    let '(c'', succs) := step_core_unlimited M c pc in
+    (forall a, get c' a = get c'' a) /\ pushes = succs.
+Proof. exact model_full_limits. Qed.
+Print Assumptions C11_full_limits_noop.
